@@ -438,10 +438,16 @@ func (fv *FV) heapFacts(st *State, cells []string) {
 	for _, c := range cells {
 		want[c] = true
 	}
-	scope := u.Pkg.Types.Scope()
-	for _, name := range scope.Names() {
-		tn, ok := scope.Lookup(name).(*types.TypeName)
-		if !ok || !u.heapStruct[name] {
+	names := append([]string{}, u.Pkg.Types.Scope().Names()...)
+	for _, name := range sortedKeys(u.localTypes) {
+		// a struct type declared inside a function body: its cells exist only in that function
+		if tn := u.localTypes[name]; tn != nil && fv.fn != nil && fv.fn.Body != nil && tn.Pos() >= fv.fn.Body.Pos() && tn.Pos() < fv.fn.Body.End() {
+			names = append(names, name)
+		}
+	}
+	for _, name := range names {
+		tn := u.typeByName(name)
+		if tn == nil || !u.heapStruct[name] {
 			continue
 		}
 		stt, ok := tn.Type().Underlying().(*types.Struct)
